@@ -789,10 +789,224 @@ def rule_alloc_taint(prog, fixture=False):
     return r
 
 
+# ---------------------------------------------------------------- R-C07-9
+def reachable_from_main(prog):
+    main = prog.fn1("main")
+    seen = set()
+    st = [main]
+    lam = {}
+    for f in prog.functions.values():
+        if f.parent_key:
+            lam.setdefault(f.parent_key, []).append(f)
+    while st:
+        f = st.pop()
+        if f.uid in seen:
+            continue
+        seen.add(f.uid)
+        st.extend(lam.get(f.key, []))
+        for n in f.walk():
+            if is_call(n) and n.get("fn"):
+                st.extend(prog.call_targets(f, n))
+            elif n.get("k") == "DeclRefExpr" and n.get("dk") in ("Function", "CXXMethod") and n.get("fn"):
+                st.extend(prog.resolve(f, n["fn"]))
+    # static initialisers register commands (REGISTER_COMMAND): every CommandInterface override is reachable
+    for f in prog.functions.values():
+        if f.name in ("invoke", "name", "usage", "description") and f.raw.get("virtual"):
+            if f.uid not in seen:
+                st.append(f)
+    while st:
+        f = st.pop()
+        if f.uid in seen:
+            continue
+        seen.add(f.uid)
+        st.extend(lam.get(f.key, []))
+        for n in f.walk():
+            if is_call(n) and n.get("fn"):
+                st.extend(prog.call_targets(f, n))
+            elif n.get("k") == "DeclRefExpr" and n.get("dk") in ("Function", "CXXMethod") and n.get("fn"):
+                st.extend(prog.resolve(f, n["fn"]))
+    return seen
+
+
+def _ctor_args_nonzero(prog, fn, member_name):
+    """All constructions of fn's class initialise `member_name` from a parameter that
+    every construction site passes as a non-zero constant."""
+    cls = notpl(fn.cls or "")
+    ctors = [f for f in prog.functions.values() if notpl(f.cls or "") == cls and f.name == cls.split("::")[-1]]
+    if not ctors:
+        return False
+    for c in ctors:
+        idx = None
+        for ini in c.raw.get("inits", []):
+            if ini.get("member") == member_name and ini.get("init"):
+                src = strip_all(ini["init"])
+                v = folded(src)
+                if v is not None:
+                    if v == 0:
+                        return False
+                    idx = -1
+                elif src.get("k") == "DeclRefExpr":
+                    for i, p in enumerate(c.params):
+                        if p["d"] == src.get("d"):
+                            idx = i
+        if idx is None:
+            return False
+        if idx == -1:
+            continue
+        sites = 0
+        for g in prog.functions.values():
+            for n in g.walk():
+                if n.get("k") in ("CXXConstructExpr", "CXXTemporaryObjectExpr") and n.get("fn") == c.key:
+                    sites += 1
+                    a = n.get("c", [])
+                    if idx >= len(a) or folded(a[idx]) in (None, 0):
+                        return False
+        if sites == 0:
+            return False
+    return True
+
+
+def rule_divisors(prog, fixture=False):
+    r = RuleResult("R-C07-9", "every integer division or remainder by a non-constant value is dominated by a test "
+                   "that the divisor is non-zero, or the divisor is non-zero by construction (constant constructor "
+                   "arguments), or - in the flux adapters - by the test that the decoded sector list is non-empty, "
+                   "from which the geometry was computed", floor=0 if fixture else 5)
+    reach = reachable_from_main(prog) if not fixture else None
+    for fn in prog.functions.values():
+        g = None
+        k = 0
+        for n in fn.walk():
+            if not (n.get("k") in ("BinaryOperator", "CompoundAssignOperator") and n.get("op") in ("/", "%", "/=", "%=")):
+                continue
+            den = n["c"][1]
+            if folded(den) not in (None, 0) or not (strip(den) or {}).get("w"):
+                continue
+            k += 1
+            key = "%s::%s::%s#%d" % (fn.relfile(), fn.qn, "div", k)
+            if reach is not None and fn.uid not in reach:
+                r.add(key, fn.loc(n), True, "function not reachable from main", nontrivial=False)
+                continue
+            if g is None:
+                g = Guards(fn)
+            ok, why = False, ""
+            for l, rel, rr in (g.cmps(n) or []):
+                if same_expr(l, den) and ((rel in ("!=", ">") and folded(rr) == 0) or (rel in (">=",) and (folded(rr) or 0) >= 1)):
+                    ok, why = True, "divisor tested non-zero"
+            for atom, truth in (g.truths(n) or []):
+                if truth and same_expr(atom, den):
+                    ok, why = True, "divisor tested non-zero"
+            ds = strip_all(den)
+            if not ok and ds.get("k") == "MemberExpr" and _ctor_args_nonzero(prog, fn, ds.get("n")):
+                ok, why = True, "member initialised from non-zero constants at every construction"
+            if not ok:
+                # local defined from a product of geometry fields / geometry field itself, in a flux adapter:
+                # requires the non-empty-sector-list guard
+                def over_geom(e, depth=0):
+                    e = strip_all(e)
+                    if e is None or depth > 4:
+                        return False
+                    if e.get("k") == "MemberExpr" and e.get("c") and strip_all(e["c"][0]).get("n") == "geom_":
+                        return True
+                    if e.get("k") == "BinaryOperator" and e.get("op") == "*":
+                        return over_geom(e["c"][0], depth + 1) and over_geom(e["c"][1], depth + 1)
+                    if e.get("k") == "DeclRefExpr":
+                        for v in fn.walk():
+                            if v.get("k") == "VarDecl" and v.get("d") == e.get("d") and v.get("c"):
+                                return over_geom(v["c"][0], depth + 1)
+                    return False
+                if over_geom(den):
+                    for l, rel, rr in (g.cmps(n) or []):
+                        rs = strip_all(rr)
+                        if rel == "<" and rs.get("k") == "CXXMemberCallExpr" and (strip(rs["c"][0]) or {}).get("n") == "size" \
+                                and strip_all(strip(rs["c"][0])["c"][0]).get("n") == "sectors_":
+                            ok, why = True, "guarded by `index < sectors_.size()`: the geometry was computed from a non-empty sector list"
+                    # the index may have been reduced since the guard (lba = lba % n): accept a guard on entry
+                    if not ok:
+                        dom = fn.cfg.dominators()
+                        pos = fn.where().get(n["i"])
+                        for bid in fn.cfg.reachable():
+                            b = fn.cfg.blocks[bid]
+                            if b.get("cond") is None or len(fn.cfg.succ[bid]) != 2:
+                                continue
+                            cond = fn.nodes.get(b["cond"])
+                            for outcome, si in ((True, 0), (False, 1)):
+                                for f in flow.atomise(cond, outcome):
+                                    if f[0] == "C" and f[2] == "<":
+                                        rs = strip_all(f[3])
+                                        if rs.get("k") == "CXXMemberCallExpr" and (strip(rs["c"][0]) or {}).get("n") == "size" \
+                                                and strip_all(strip(rs["c"][0])["c"][0]).get("n") == "sectors_":
+                                            s_ = fn.cfg.succ[bid][si]
+                                            if pos and s_ in dom.get(pos[0], set()):
+                                                ok, why = True, "dominated by `index < sectors_.size()` (non-empty sector list)"
+            r.add(key, fn.loc(n), ok, why if ok else
+                  "`%s`: the divisor can be zero (e.g. an image in which no sector could be decoded gives a geometry "
+                  "with 0 sectors per track): integer division by zero ends the process with SIGFPE" % show(n)[:70])
+    return r
+
+
+# ---------------------------------------------------------------- R-C07-8
+def rule_diagnosed_failures(prog, fixture=False):
+    from ..diag import DiagAnalysis
+    r = RuleResult("R-C07-8", "every failure result on a command path is preceded, on every path, by a diagnostic "
+                   "on standard error (directly, or through a callee that always diagnoses its own failures); a "
+                   "failure that is the state of std::cout is diagnosed by main's epilogue, which therefore runs "
+                   "before every return of the status helper", floor=0 if fixture else 10)
+    da = DiagAnalysis(prog)
+    base = [k for k, i in prog.callees.items() if notpl(i.get("q") or "") == "DFS::CommandInterface::invoke"]
+    keys = set()
+    for k in base:
+        keys |= prog.overriders(k)
+    targets = [f for f in prog.functions.values() if f.key in keys]
+    targets += prog.fn("main", required=not fixture)
+    for f in targets:
+        ok, why = da.classify(f, "diag")
+        key = "%s::%s" % (f.relfile(), f.qn)
+        r.add(key, "%s:%d" % (f.relfile(), f.line), ok, "all failure points diagnosed" if ok else
+              "a non-zero exit status can be produced without any message on standard error: " + why)
+    # stdout-failure discharge
+    main = prog.fn("main", required=not fixture)
+    if main:
+        main = main[0]
+        helpers = set()
+        for n in main.walk():
+            if n.get("k") == "ReturnStmt" and n.get("c"):
+                e = strip_all(n["c"][0])
+                if is_call(e):
+                    for t in prog.call_targets(main, e):
+                        if t.raw.get("ret") == "int" and len(t.params) == 1:
+                            helpers.add(t)
+        for h in helpers:
+            dom = h.cfg.dominators()
+            test_blocks = []
+            for bid in h.cfg.reachable():
+                b = h.cfg.blocks[bid]
+                if b.get("cond") is None:
+                    continue
+                cond = h.nodes.get(b["cond"])
+                if any(x.get("k") == "DeclRefExpr" and notpl(x.get("q") or "") == "std::cout" for x in walk(cond)):
+                    test_blocks.append(bid)
+            key = "%s::%s::stdout-failure" % (h.relfile(), h.qn)
+            if not test_blocks:
+                r.add(key, "%s:%d" % (h.relfile(), h.line), False, "no test of std::cout in the status helper")
+                continue
+            bad = None
+            for n in h.walk():
+                if n.get("k") == "ReturnStmt":
+                    pos = h.where().get(n["i"])
+                    if pos and not any(tb in dom.get(pos[0], set()) for tb in test_blocks):
+                        bad = n
+            r.add(key, h.loc(bad) if bad else "%s:%d" % (h.relfile(), h.line), bad is None,
+                  "every return follows the std::cout test" if bad is None else
+                  "this return is taken before std::cout has been flushed and tested: a command that failed because "
+                  "standard output could not be written (it returns the stream state) exits non-zero with no message")
+    return r
+
+
 def run(ctx):
     prog = ctx.prog("dfs", "N")
     return [rule_throw_types(prog), rule_containment(prog), rule_exit_status(prog), rule_short_reads(prog),
-            rule_reading_loops(prog), rule_alloc_taint(prog), rule_optional_access(prog)]
+            rule_reading_loops(prog), rule_alloc_taint(prog), rule_optional_access(prog), rule_divisors(prog),
+            rule_diagnosed_failures(prog)]
 
 
 SELFTESTS = [
